@@ -136,7 +136,7 @@ class Env:
         self.push_errors = 0
         self.escaped = []          # exceptions that escaped from close()/a report
         self.sets = []             # distinct objects returned by close(), strong refs
-        self.first_snapshot = None
+        self.last_returned = None
         self.excs = shared["excs"]
         self.rc_calls = 0
 
@@ -242,6 +242,10 @@ class Env:
             except Exception as ex:
                 self.escaped.append(type(ex).__name__)
                 return "raised"
+            try:
+                self.last_returned = frozenset(ret)
+            except Exception:
+                self.last_returned = None
             idx = next((j for j, s in enumerate(self.sets) if s is ret), None)
             if idx is None:
                 self.sets.append(ret)
@@ -341,7 +345,7 @@ async def run_case(shared, case):
         out = await env.do(tok)
         if tok == "u":
             premise = True
-            closes.append((out, list(env.close_log)))
+            closes.append((out, list(env.close_log), env.last_returned))
         if len(env.reports) > nrep and tok[0] == "r":
             premise = True
         short = out.split(":")[0] if out.startswith("pass") else out
@@ -375,16 +379,15 @@ async def run_case(shared, case):
         bits = "".join(bits)
     # close() again: same set, nothing re-closed
     if closes:
-        if any(o == "raised" for o, _ in closes):
+        if any(o == "raised" for o, _, _ in closes):
             problems.append(("close-again:raised", "close() raised: %s" % env.escaped))
-        ids = {o.split(":")[0] for o, _ in closes if o != "raised"}
-        if len(ids) > 1:
-            problems.append(("close-again:different-set", "repeated close() returned different set objects: %s" % [o for o, _ in closes]))
-        sizes = {o.split(":")[1] for o, _ in closes if o != "raised"}
-        if len(sizes) > 1:
-            problems.append(("close-again:different-tasks", "repeated close() returned different pending tasks: %s" % [o for o, _ in closes]))
+        # "returns the same pending tasks": the same task objects (whether the *set object* is
+        # the same one is compared with the model, not demanded here)
+        contents = [c for o, _, c in closes if o != "raised" and c is not None]
+        if any(c != contents[0] for c in contents[1:]):
+            problems.append(("close-again:different-tasks", "repeated close() returned different pending tasks: %s" % [o for o, _, _ in closes]))
         first_log = closes[0][1]
-        if any(log != first_log for _, log in closes[1:]) or len(set(env.close_log)) != len(env.close_log):
+        if any(log != first_log for _, log, _ in closes[1:]) or len(set(env.close_log)) != len(env.close_log):
             problems.append(("close-again:protocol-reclosed", "a protocol was closed more than once: close log %s" % env.close_log))
     # notifications
     if lmode != "d":
